@@ -40,6 +40,7 @@ import (
 	"github.com/AdguardTeam/AdGuardHome/internal/arpdb"
 	"github.com/AdguardTeam/AdGuardHome/internal/client"
 	"github.com/AdguardTeam/AdGuardHome/internal/filtering"
+	"github.com/AdguardTeam/AdGuardHome/internal/filtering/safesearch"
 	"github.com/AdguardTeam/AdGuardHome/internal/querylog"
 	"github.com/AdguardTeam/AdGuardHome/internal/schedule"
 	"github.com/AdguardTeam/AdGuardHome/internal/stats"
@@ -85,6 +86,7 @@ type c05Report struct {
 	Queries   int64          `json:"queries"`
 	AdminOps  int64          `json:"admin_ops"`
 	Refused   int64          `json:"refused_by_access"`
+	Shapes    int64          `json:"body_shapes_sent"`
 	Panics    []string       `json:"panics"`
 	Malformed []string       `json:"malformed"`
 	Stalled   string         `json:"stalled"`
@@ -101,6 +103,161 @@ func (r *c05Rand) next() uint64 {
 	return z ^ (z >> 31)
 }
 func (r *c05Rand) intn(n int) int { return int(r.next() % uint64(n)) }
+
+type c05ShapeRoute struct {
+	method, url string
+	full        any // a complete, valid body
+}
+
+// c05ShapeRoutes: the state-changing admin operations reachable from this
+// package (dnsforward, filtering, stats, querylog handlers), each with one
+// complete valid body.  Settings that restart the proxy (upstreams, cache,
+// rate limit) are left out of dns_config: a restart rebuilds the upstream
+// configuration and would drop the mock upstream.
+func c05ShapeRoutes() []c05ShapeRoute {
+	o := func(kv ...any) map[string]any {
+		m := map[string]any{}
+		for i := 0; i+1 < len(kv); i += 2 {
+			m[kv[i].(string)] = kv[i+1]
+		}
+		return m
+	}
+	l := func(xs ...any) []any { return xs }
+	day := o("start", 0, "end", 3600000)
+	return []c05ShapeRoute{
+		{"POST", "/control/access/set", o("allowed_clients", l(), "disallowed_clients", l("10.0.0.9"), "blocked_hosts", l("version.bind"))},
+		{"POST", "/control/dns_config", o("protection_enabled", true, "blocking_mode", "custom_ip", "blocking_ipv4", "192.0.2.1", "blocking_ipv6", "2001:db8::1",
+			"blocked_response_ttl", 10, "dnssec_enabled", false, "disable_ipv6", false, "upstream_mode", "", "edns_cs_custom_ip", "192.0.2.2", "protection_disabled_until", nil)},
+		{"POST", "/control/protection", o("enabled", true, "duration", 0)},
+		{"POST", "/control/protection", o("enabled", false, "duration", 40)},
+		{"POST", "/control/cache_clear", o()},
+		{"POST", "/control/filtering/set_rules", o("rules", l("||custom.example^"))},
+		{"POST", "/control/filtering/config", o("enabled", true, "interval", 24)},
+		{"POST", "/control/filtering/add_url", o("name", "n", "url", "http://127.0.0.1:1/list.txt", "whitelist", false)},
+		{"POST", "/control/filtering/set_url", o("url", "http://127.0.0.1:1/list.txt", "whitelist", false, "data", o("name", "n", "url", "http://127.0.0.1:1/list.txt", "enabled", false))},
+		{"POST", "/control/filtering/remove_url", o("url", "http://127.0.0.1:1/list.txt", "whitelist", false)},
+		{"POST", "/control/filtering/refresh", o("whitelist", false)},
+		{"POST", "/control/safebrowsing/enable", o()},
+		{"POST", "/control/safebrowsing/disable", o()},
+		{"POST", "/control/parental/enable", o()},
+		{"POST", "/control/parental/disable", o()},
+		{"POST", "/control/safesearch/enable", o()},
+		{"POST", "/control/safesearch/disable", o()},
+		{"PUT", "/control/safesearch/settings", o("enabled", true, "bing", true, "duckduckgo", true, "ecosia", true, "google", true, "pixabay", true, "yandex", true, "youtube", true)},
+		{"POST", "/control/blocked_services/set", l("youtube")},
+		{"PUT", "/control/blocked_services/update", o("ids", l("youtube"), "schedule", o("time_zone", "UTC", "mon", day, "sun", day))},
+		{"POST", "/control/rewrite/add", o("domain", "rw.example", "answer", "192.0.2.3")},
+		{"PUT", "/control/rewrite/update", o("target", o("domain", "rw.example", "answer", "192.0.2.3"), "update", o("domain", "rw.example", "answer", "192.0.2.4"))},
+		{"POST", "/control/rewrite/delete", o("domain", "rw.example", "answer", "192.0.2.4")},
+		{"POST", "/control/stats_config", o("interval", 1)},
+		{"PUT", "/control/stats/config/update", o("enabled", true, "interval", 3600000, "ignored", l("ign.example"))},
+		{"POST", "/control/stats_reset", o()},
+		{"POST", "/control/querylog_config", o("enabled", true, "interval", 1, "anonymize_client_ip", false)},
+		{"PUT", "/control/querylog/config/update", o("enabled", true, "anonymize_client_ip", false, "interval", 3600000, "ignored", l("qi.example"))},
+		{"POST", "/control/querylog_clear", o()},
+	}
+}
+
+func c05Zero(v any) any {
+	switch v.(type) {
+	case string:
+		return ""
+	case bool:
+		return false
+	case []any:
+		return []any{}
+	case map[string]any:
+		return map[string]any{}
+	case nil:
+		return nil
+	default:
+		return 0
+	}
+}
+
+func c05Clone(v any) any {
+	b, _ := json.Marshal(v)
+	var out any
+	_ = json.Unmarshal(b, &out)
+	return out
+}
+
+// c05BodyShapes: the complete body, the degenerate documents, and for every
+// field (one level into nested objects) the body with the field omitted, set
+// to an explicit null, and set to the zero value of its type.
+func c05BodyShapes(full any) (bodies []string) {
+	seen := map[string]bool{}
+	add := func(v any) {
+		b, err := json.Marshal(v)
+		if err == nil && !seen[string(b)] {
+			seen[string(b)] = true
+			bodies = append(bodies, string(b))
+		}
+	}
+	add(full)
+	for _, s := range []string{`null`, `{}`, `[]`, `[null]`, `""`, `0`} {
+		if !seen[s] {
+			seen[s] = true
+			bodies = append(bodies, s)
+		}
+	}
+	m, ok := full.(map[string]any)
+	if !ok {
+		return bodies
+	}
+	keys := make([]string, 0, len(m))
+	for k := range m {
+		keys = append(keys, k)
+	}
+	sortStrings(keys)
+	for _, k := range keys {
+		for _, mode := range []int{0, 1, 2} {
+			c := c05Clone(m).(map[string]any)
+			switch mode {
+			case 0:
+				delete(c, k)
+			case 1:
+				c[k] = nil
+			case 2:
+				c[k] = c05Zero(m[k])
+			}
+			add(c)
+		}
+		sub, isObj := m[k].(map[string]any)
+		if !isObj {
+			continue
+		}
+		subKeys := make([]string, 0, len(sub))
+		for sk := range sub {
+			subKeys = append(subKeys, sk)
+		}
+		sortStrings(subKeys)
+		for _, sk := range subKeys {
+			for _, mode := range []int{0, 1, 2} {
+				c := c05Clone(m).(map[string]any)
+				cs := c[k].(map[string]any)
+				switch mode {
+				case 0:
+					delete(cs, sk)
+				case 1:
+					cs[sk] = nil
+				case 2:
+					cs[sk] = c05Zero(sub[sk])
+				}
+				add(c)
+			}
+		}
+	}
+	return bodies
+}
+
+func sortStrings(xs []string) {
+	for i := 1; i < len(xs); i++ {
+		for j := i; j > 0 && xs[j] < xs[j-1]; j-- {
+			xs[j], xs[j-1] = xs[j-1], xs[j]
+		}
+	}
+}
 
 func TestVerifC05Stress(t *testing.T) {
 	seed, _ := strconv.ParseUint(os.Getenv("VERIF_SEED"), 10, 64)
@@ -225,7 +382,20 @@ func TestVerifC05Stress(t *testing.T) {
 	}
 
 	// ---- filtering
+	filtering.InitModule() // the blocked-service catalogue, as home does at start-up
+	ssConf := filtering.SafeSearchConfig{Enabled: false, Google: true, Yandex: true}
+	safeSearch, err := safesearch.NewDefault(ctx, &safesearch.DefaultConfig{
+		Logger:         logger,
+		ServicesConfig: ssConf,
+		CacheSize:      1000,
+		CacheTTL:       time.Minute,
+	})
+	if err != nil {
+		t.Fatalf("safesearch: %v", err)
+	}
 	fconf := &filtering.Config{
+		SafeSearchConf:             ssConf,
+		SafeSearch:                 safeSearch,
 		ProtectionEnabled:          true,
 		BlockingMode:               filtering.BlockingModeDefault,
 		BlockedResponseTTL:         10,
@@ -237,6 +407,8 @@ func TestVerifC05Stress(t *testing.T) {
 		ConfigModified:             onModified,
 		HTTPRegister:               reg,
 		FiltersUpdateIntervalHours: 24,
+		// add_url / set_url of the body-shape battery point at a closed local port
+		HTTPClient: &http.Client{Timeout: 300 * time.Millisecond},
 	}
 	f, err := filtering.New(fconf, []filtering.Filter{{ID: 0, Data: []byte("||blocked.example^\n@@||white.example^\n")}})
 	if err != nil {
@@ -292,6 +464,15 @@ func TestVerifC05Stress(t *testing.T) {
 		st.WriteDiskConfig(&sc)
 	}
 
+	// the last admin requests, so that a panic on the DNS path can be replayed
+	// together with the reconfiguration that poisoned the state
+	var lastMu sync.Mutex
+	var lastAdmin []string
+	recent := func() string {
+		lastMu.Lock()
+		defer lastMu.Unlock()
+		return strings.Join(lastAdmin, " ; ")
+	}
 	call := func(method, url, body string) {
 		regMu.Lock()
 		h := handlers[method+" "+strings.SplitN(url, "?", 2)[0]]
@@ -300,17 +481,36 @@ func TestVerifC05Stress(t *testing.T) {
 			note(&rep.Malformed, "no handler registered for %s %s", method, url)
 			return
 		}
+		if method != "GET" {
+			lastMu.Lock()
+			lastAdmin = append(lastAdmin, fmt.Sprintf("%s %s %s", method, url, body))
+			if len(lastAdmin) > 6 {
+				lastAdmin = lastAdmin[len(lastAdmin)-6:]
+			}
+			lastMu.Unlock()
+		}
 		r := httptest.NewRequest(method, url, bytes.NewReader([]byte(body)))
 		r.Header.Set("Content-Type", "application/json")
 		w := httptest.NewRecorder()
-		h(w, r)
+		func() {
+			// a panic in a handler is a violation of its own, reported with the request
+			defer func() {
+				if p := recover(); p != nil {
+					buf := make([]byte, 4096)
+					buf = buf[:runtime.Stack(buf, false)]
+					note(&rep.Panics, "http handler %s %s body=%s: %v\n%s", method, url, body, p, buf)
+				}
+			}()
+			h(w, r)
+		}()
 		repMu.Lock()
 		rep.Statuses[fmt.Sprintf("%s %s %d", method, strings.SplitN(url, "?", 2)[0], w.Code)]++
 		repMu.Unlock()
 	}
 
 	deadline := time.Now().Add(time.Duration(millis) * time.Millisecond)
-	var queries, adminOps, refused atomic.Int64
+	var queries, adminOps, refused, shapes atomic.Int64
+	var shapesDone atomic.Bool
 	var wg sync.WaitGroup
 	guard := func(what string, fn func()) {
 		defer func() {
@@ -324,39 +524,44 @@ func TestVerifC05Stress(t *testing.T) {
 	}
 
 	names := []string{"blocked.example.", "sub.blocked.example.", "white.example.", "ok.example.", "rw.example.", "custom.example.", "x.test."}
+	// one query through the real request path; a panic is recovered and
+	// reported with the query and the admin requests that preceded it
+	doQuery := func(name string, qt uint16, addr netip.Addr) {
+		guard("dns "+name+" from "+addr.String()+" after admin requests ["+recent()+"]", func() {
+			req := createTestMessageWithType(name, qt)
+			pctx := &proxy.DNSContext{Proto: proxy.ProtoUDP, Req: req, Addr: netip.AddrPortFrom(addr, 5353)}
+			if err := s.HandleBefore(nil, pctx); err != nil {
+				refused.Add(1)
+				return
+			}
+			if err := s.handleDNSRequest(nil, pctx); err != nil {
+				note(&rep.Malformed, "%s from %s: handleDNSRequest error %v", name, addr, err)
+				return
+			}
+			res := pctx.Res
+			switch {
+			case res == nil:
+				note(&rep.Malformed, "%s from %s: no response", name, addr)
+			case !res.Response || res.Id != req.Id || len(res.Question) != 1 ||
+				!strings.EqualFold(res.Question[0].Name, name) || res.Question[0].Qtype != qt:
+				note(&rep.Malformed, "%s from %s: response does not match the request: %v", name, addr, res)
+			}
+		})
+		queries.Add(1)
+	}
 	for g := 0; g < 4; g++ {
 		wg.Add(1)
 		go func(g int) {
 			defer wg.Done()
 			r := &c05Rand{s: seed*1000 + uint64(g)}
-			for time.Now().Before(deadline) {
+			// keep querying until the body-shape battery is through
+			for time.Now().Before(deadline) || !shapesDone.Load() {
 				name := names[r.intn(len(names))]
 				qt := dns.TypeA
 				if r.intn(4) == 0 {
 					qt = dns.TypeAAAA
 				}
-				addr := netip.AddrFrom4([4]byte{10, 0, 0, byte(1 + r.intn(5))})
-				guard("dns "+name, func() {
-					req := createTestMessageWithType(name, qt)
-					pctx := &proxy.DNSContext{Proto: proxy.ProtoUDP, Req: req, Addr: netip.AddrPortFrom(addr, 5353)}
-					if err := s.HandleBefore(nil, pctx); err != nil {
-						refused.Add(1)
-						return
-					}
-					if err := s.handleDNSRequest(nil, pctx); err != nil {
-						note(&rep.Malformed, "%s from %s: handleDNSRequest error %v", name, addr, err)
-						return
-					}
-					res := pctx.Res
-					switch {
-					case res == nil:
-						note(&rep.Malformed, "%s from %s: no response", name, addr)
-					case !res.Response || res.Id != req.Id || len(res.Question) != 1 ||
-						!strings.EqualFold(res.Question[0].Name, name) || res.Question[0].Qtype != qt:
-						note(&rep.Malformed, "%s from %s: response does not match the request: %v", name, addr, res)
-					}
-				})
-				queries.Add(1)
+				doQuery(name, qt, netip.AddrFrom4([4]byte{10, 0, 0, byte(1 + r.intn(5))}))
 			}
 		}(g)
 	}
@@ -431,6 +636,36 @@ func TestVerifC05Stress(t *testing.T) {
 		func(r *c05Rand) { call("GET", "/control/safebrowsing/status", "") },
 		func(r *c05Rand) { _ = st.TopClientsIP(5) },
 	}
+	// Seed-independent prelude: every state-changing admin operation of the
+	// property's list that this package can reach is sent once per body shape
+	// (the complete body, null, {}, [], and per field: omitted, explicit null,
+	// zero value, one level into nested objects) while the queries run.  A
+	// shape that a handler accepts and stores must not make the handler or any
+	// later query panic.
+	wg.Add(1)
+	go func() {
+		defer wg.Done()
+		defer shapesDone.Store(true)
+		for _, rt := range c05ShapeRoutes() {
+			for _, body := range c05BodyShapes(rt.full) {
+				guard("admin-shape", func() {
+					ctlMu.Lock()
+					defer ctlMu.Unlock()
+					call(rt.method, rt.url, body)
+				})
+				adminOps.Add(1)
+				shapes.Add(1)
+				// the state this request left behind is exercised at once, by
+				// a persistent client with own settings, a persistent client
+				// without, and an unknown client (besides the concurrent queries)
+				for _, last := range []byte{1, 2, 9} {
+					doQuery("ok.example.", dns.TypeA, netip.AddrFrom4([4]byte{10, 0, 0, last}))
+				}
+				doQuery("blocked.example.", dns.TypeAAAA, netip.AddrFrom4([4]byte{10, 0, 0, 9}))
+			}
+		}
+	}()
+
 	for g := 0; g < 2; g++ {
 		wg.Add(1)
 		go func(g int) {
@@ -481,5 +716,6 @@ func TestVerifC05Stress(t *testing.T) {
 		rep.Stalled = fmt.Sprintf("workers still running 15 s after the deadline; goroutines blocked on mutexes:\n%s", strings.Join(blocked, "\n\n"))
 	}
 	rep.Queries, rep.AdminOps, rep.Refused = queries.Load(), adminOps.Load(), refused.Load()
+	rep.Shapes = shapes.Load()
 	t.Logf("c05 stress: %d queries, %d admin ops, %d refused, %d panics, %d malformed", rep.Queries, rep.AdminOps, rep.Refused, len(rep.Panics), len(rep.Malformed))
 }
